@@ -553,6 +553,12 @@ void NiHeader::UpdateHeaderStrings(const bool hasUnknown) {
 
 		for (auto& r : stringRefs) {
 			bool addEmpty = (r->GetIndex() != NIF_NPOS);
+
+			// An empty reference without an index stays that way, whether or not an empty string
+			// happens to have been registered by an earlier block already
+			if (!addEmpty && r->get().empty())
+				continue;
+
 			int stringId = AddOrFindStringId(r->get(), addEmpty);
 			r->SetIndex(stringId);
 		}
